@@ -21,10 +21,21 @@ def run_check(prop, tier, seed):
         mod.run(ck, ctx)
         return ck.finish()
     except AnalysisError as e:
-        return fail_analysis(prop, str(e))
+        return _partial(ck, prop, str(e))
     except Exception:
         traceback.print_exc()
-        return fail_analysis(prop, "internal error in the analyser (traceback above)")
+        return _partial(ck, prop, "internal error in the analyser (traceback above)")
+
+
+def _partial(ck, prop, msg):
+    """the analysis could not be completed; obligations already found violated (and not listed as known findings) are still
+    violations of the property and are reported as such"""
+    from .core import load_known_findings
+    known = {f["key"] for f in load_known_findings() if f["property"] == prop and f.get("status", "known") == "known"}
+    if any((not o.ok) and f"{o.rule}|{o.key}" not in known for o in ck.obligations):
+        print(f"(analysis incomplete: {msg})")
+        return ck.finish()
+    return fail_analysis(prop, msg)
 
 
 def replay(path):
